@@ -446,7 +446,13 @@ func (h *c15) alive(goroutines int) {
 	if len(codecs) < 10 {
 		h.out.OracleFail("C15:alive-setup", "the response codec cannot be exercised (no responder / no response message)", "codec|alive")
 	}
-	hist := aliveHistories(vlib.Budget(5, 6))
+	// a length, not a case count: taken from the tier directly (vlib.Budget multiplies under VERIF_SEARCH=1,
+	// and the number of histories grows faster than exponentially with the length)
+	maxLen := 5
+	if vlib.Tier() == "thorough" {
+		maxLen = 6
+	}
+	hist := aliveHistories(maxLen)
 	sizes := []int{0, 1, 16, 32, 33, 100}
 	for _, c := range codecs {
 		if goroutines > 1 {
